@@ -157,7 +157,7 @@ PROPS = {
         "level_text": "Every file compiled from the isolation matrix (all annotations one at a time), from option-value and name-scoping stress bundles, from random decorated bundles (descriptions with quotes, backslashes, unicode, paragraphs) and every hand-written .proto under the repository's proto/ tree is printed with protoprint.PrintFile, all printed files of a bundle are parsed and linked together through protosrc/protocompile, and the result is compared element by element with the original descriptor after the projection the statement lists (synthetic oneofs dropped, default JSON names filled in, empty options == absent, options compared by content, leading comments by element path); the re-parsed file is printed again and must reproduce the text byte for byte.",
         "level_note": "The projection (canonFile) and the element-wise differ are harness code; protocompile is trusted as the parser of record.",
         "rule": "one evaluation per printed file; non-trivial = printed text longer than 60 bytes; distinct by hash of the printed text.",
-        "floors": ["c05:isolation", "c05:option-values", "c05:scoping", "c05:random", "c05:repo-proto", "c05:comments"],
+        "floors": ["c05:synthetic-options", "c05:isolation", "c05:option-values", "c05:scoping", "c05:random", "c05:repo-proto", "c05:comments"],
         "assumptions": COMMON_ASSUMPTIONS,
     },
     "C02": {
